@@ -78,6 +78,11 @@ def run_ops_r(ex, ops):
             insts[op[1]] = RInst.default(ex, op[2]); outs.append(None)
         elif k == 'feed':
             outs.append(insts[op[1]].feed(op[2]))
+        elif k == 'feed_di':
+            outs.append(insts[op[1]].next_bar(op[2], 'DataItem'))
+        elif k == 'pipe':                      # ('pipe', dst, src, component): feed dst with the last output of src
+            src_out = [o for o2, o in zip(ops[:len(outs)], outs) if o2[0] in ('feed', 'feed_di', 'pipe') and o2[1] == op[2]][-1]
+            outs.append(insts[op[1]].next(src_out[op[3]]))
         elif k == 'reset':
             insts[op[1]].reset(); outs.append(None)
         elif k == 'clone':
@@ -103,8 +108,8 @@ def concretize_ops(ops, m):
             per = tuple(int(rcore.model_val(m, p)) if is_sym(p) else int(p) for p in op[3])
             mult = None if op[4] is None else float(rcore.model_val(m, op[4]) if is_sym(op[4]) else op[4])
             out.append(('new', op[1], op[2], per, mult))
-        elif op[0] == 'feed':
-            out.append(('feed', op[1], _cv(m, op[2], True)))
+        elif op[0] in ('feed', 'feed_di'):
+            out.append((op[0], op[1], _cv(m, op[2], True)))
         else:
             out.append(op)
     return out
@@ -116,9 +121,9 @@ def ops_exact(ops):
     for op in ops:
         if op[0] == 'new':
             out.append(('new', op[1], op[2], op[3], None if op[4] is None else F(op[4])))
-        elif op[0] == 'feed':
+        elif op[0] in ('feed', 'feed_di'):
             v = op[2]
-            out.append(('feed', op[1], tuple(F(x) for x in v) if isinstance(v, tuple) else F(v)))
+            out.append((op[0], op[1], tuple(F(x) for x in v) if isinstance(v, tuple) else F(v)))
         else:
             out.append(op)
     return out
@@ -131,6 +136,8 @@ def ops_lines(ops):
         if k == 'new': lines.append(native.new_cmd(op[1], op[2], op[3], op[4]))
         elif k == 'default': lines.append('default %s %s' % (op[1], op[2]))
         elif k == 'feed': lines.append(native.feed_cmd(op[1], op[2]))
+        elif k == 'feed_di': lines.append('dibar %s %s' % (op[1], ' '.join(native.arg(x) for x in op[2])))
+        elif k == 'pipe': lines.append('nextfrom %s %s %d' % (op[1], op[2], op[3]))
         elif k == 'reset': lines.append('reset %s' % op[1])
         elif k == 'clone': lines.append('clone %s %s' % (op[1], op[2]))
     return lines
@@ -141,7 +148,7 @@ def run_ops_native(ops, profile='dev'):
     rep = native.run_script(lines, profile)
     outs = []
     for op, r in zip(ops, rep):
-        if op[0] == 'feed': outs.append(r[1] if r[0] == 'out' else r[0])
+        if op[0] in ('feed', 'feed_di', 'pipe'): outs.append(r[1] if r[0] == 'out' else r[0])
         elif op[0] == 'new' and r[0] != 'ok': outs.append('ctor:' + ' '.join(map(str, r)))
         elif r[0] == 'panic': outs.append('panic')
         else: outs.append(None)
@@ -155,14 +162,14 @@ def ops_vars(ops):
             for x in v: add(x)
         elif is_sym(v) and z3.is_real(v): xs.append(v)
     for op in ops:
-        if op[0] == 'feed': add(op[2])
+        if op[0] in ('feed', 'feed_di'): add(op[2])
         elif op[0] == 'new' and op[4] is not None: add(op[4])
     return xs
 
 
 def feeds(ops, outs, slot=None):
     """[(value, output)] of the feed ops (of one slot)"""
-    return [(op[2], o) for op, o in zip(ops, outs) if op[0] == 'feed' and (slot is None or op[1] == slot)]
+    return [(op[2], o) for op, o in zip(ops, outs) if op[0] in ('feed', 'feed_di', 'pipe') and (slot is None or op[1] == slot)]
 
 
 def confirm_native(ops_f, obligations_fn, profiles=('dev', 'release')):
